@@ -90,7 +90,8 @@ try:
 finally:
     subprocess.run(f"git -C /repo worktree remove --force {wt}", shell=True, stdout=subprocess.DEVNULL, stderr=subprocess.DEVNULL)
     shutil.rmtree(wt, ignore_errors=True)
-    subprocess.run("rm -rf /verif/build/alt_*", shell=True)
+    import hashlib as _h
+    shutil.rmtree("/verif/build/alt_" + _h.sha1(os.path.realpath(wt).encode()).hexdigest()[:8], ignore_errors=True)
 out = f"/verif/seeded/{prop}-{variant}"
 os.makedirs(out, exist_ok=True)
 shutil.copy(os.path.join(vdir, "patch.diff"), out)
